@@ -25,7 +25,7 @@ RULE = ("a case is a schema (secrets aes/xor/best, challenge, bytes, containers,
         "destination's bytes and existence are compared and the audit log must show no write-open of it; every "
         "successful save is compared with dumps() (deterministic states) and loaded back; non-trivial = >= 1 failing "
         "save judged with a pre-existing destination; distinct = distinct (schema, states, format, fault)")
-REQUIRED = ("schema_grown_after_first_save", "states_with_python_objects:yaml", "states_with_python_objects:pickle", "fault:keyfile-again-bad", "fault:keyfile-again-rekey", "dest_form:rel", "dest_form:home", "resaves_after_foreign_change", "failing_saves_judged", "natural_failures_judged", "injected_failures_judged", "successful_saves_judged",
+REQUIRED = ("saves_of_a_configuration_that_includes_its_own_file", "schema_grown_after_first_save", "states_with_python_objects:yaml", "states_with_python_objects:pickle", "fault:keyfile-again-bad", "fault:keyfile-again-rekey", "dest_form:rel", "dest_form:home", "resaves_after_foreign_change", "failing_saves_judged", "natural_failures_judged", "injected_failures_judged", "successful_saves_judged",
             "loaded_back_equal", "distinct_injection_lines", "fault:unencodable", "fault:keyfile", "fault:format",
             "fault:option", "fault:domain", "fault:keyfile-same-secret", "fault:rekey", "crash_points_judged")
 ASSUMPTIONS = ["atomicity of the write itself (a crash between open and the end of write) is not part of the property",
@@ -57,7 +57,7 @@ def generate(rng, ctx):
     fault = weighted(rng, [(3, "none"), (2, "unencodable"), (2, "keyfile"), (1.5, "keyfile-same-secret"), (1.5, "rekey"), (1, "format"),
                            (1, "option"), (2, "domain")])
     return {"schema": schema, "fmt": fmt, "t1": t1, "t2": t2, "fault": fault, "r": rng.getrandbits(30),
-            "dest_form": rng.choice(["abs", "abs", "rel", "home"]), "grow": rng.random() < 0.4,
+            "dest_form": rng.choice(["abs", "abs", "rel", "home"]), "grow": rng.random() < 0.4, "self_include": rng.random() < 0.25,
             "foreign": rng.choice(["none", "none", "garbage", "truncate", "delete", "other-config"]),
             "crash": rng.random() < (0.5 if ctx.tier == "thorough" else 0.3)}
 
@@ -188,6 +188,20 @@ def _run(case, ctx, res, cc, env, fmt, root, built, keypath, cfg, dest):
             res.count("schema_grown_after_first_save")
         except Exception as exc:
             res.viol("M-file", "late-field-raises", "adding a field to the schema after a save and setting it raised %r" % (exc,))
+            return
+    # ---- the configuration names the very file it is saved to as its include file (the destination holds a previous save):
+    # the save succeeds and the file loads back into an equal configuration
+    if case.get("self_include") and os.path.isfile(str(dest)):
+        try:
+            built.schema["zinc"] = cc.IncludeField()
+            root["fields"].append({"kind": "field", "key": "zinc", "family": "include", "params": {}})
+            cfg.zinc = os.path.abspath(os.path.expanduser(dest.given))
+        except Exception as exc:
+            res.viol("M-file", "self-include-raises", "declaring an include field late and naming the destination raised %r" % (exc,))
+            return
+        res.count("saves_of_a_configuration_that_includes_its_own_file")
+        ok = _judged_save(cc, ctx, res, cfg, built, root, dest, fmt, {}, log, keypath, "self-include")
+        if ok is None:
             return
     # ---- second state + natural fault
     try:
